@@ -46,8 +46,9 @@ Diffs(e, o, engAfter) ==
       \cup (IF NDone(e.cb) # NDone(o.cb) \/ (same /\ Kinds(e.cb) # Kinds(o.cb)) THEN {"done"} ELSE {})
       \cup (IF same /\ \E i \in 1..Len(ec) : oc[i].ic # -1 /\ oc[i].ic # B2I(ec[i].ic) THEN {"ic"} ELSE {})
       \cup (IF same /\ \E i \in 1..Len(ec) : oc[i].stm # Unobs /\ oc[i].stm # ec[i].stm THEN {"stm"} ELSE {})
-      \cup (IF same /\ \E i \in 1..Len(ec) : /\ oc[i].tm # Unobs /\ oc[i].tm # ec[i].tm
-                                              /\ ~(ec[i].s = sh.default /\ ~engAfter) THEN {"tm"} ELSE {})
+      \* (C03: "tm is only specified for states run as part of an engagement": not for the default state running on a
+      \*  stopped machine, nor for a must_finish state that the default state's function started without engage())
+      \cup (IF same /\ engAfter /\ \E i \in 1..Len(ec) : oc[i].tm # Unobs /\ oc[i].tm # ec[i].tm THEN {"tm"} ELSE {})
       \cup (IF e.exec # o.exec THEN {"exec"} ELSE {})
       \cup (IF e.cur # o.cur THEN {"cur"} ELSE {})
 
@@ -139,7 +140,7 @@ Lockstep ==
        ELSE IF EvEnabled(ev)
        THEN /\ EvNext(ev)
             /\ seen' = seen \cup ToSet(br')
-            /\ LET d == IF "cb" \in DOMAIN o THEN Diffs(Obs', o, eng') ELSE {}
+            /\ LET d == IF "cb" \in DOMAIN o THEN Diffs(Obs', o, eng \/ eng') ELSE {}
                    b == ToSet(br')
                IN IF d # {} THEN
                        IF Owned(d, b)
@@ -172,7 +173,7 @@ Diverged ==
                                       br |-> <<>>, exp |-> [raised |-> FALSE], obs |-> o])
        ELSE IF EvEnabled(ev)
        THEN /\ EvNext(ev)
-            /\ LET d == IF "cb" \in DOMAIN o THEN Diffs(Obs', o, eng') ELSE {}
+            /\ LET d == IF "cb" \in DOMAIN o THEN Diffs(Obs', o, eng \/ eng') ELSE {}
                    b == ToSet(br')
                    mine == {c \in d : Prop = "ALL" \/ Prop \in Owner(c, b)}
                IN IF mine # {}
